@@ -424,7 +424,7 @@ def run(ctx):
     bounds["BLS-T1-13"] = {"ref_vs_opt": "all 196 (a,b) in [0,13]^2", "split": "all %d multisets of size <= 2 over %d pairs" % (len(ms), len(sub))}
     for cfg in ("BN-T", "BLS-T2", "BLS-T1-6037"):
         S = PL.get(cfg)
-        n = (160 if cfg != "BLS-T1-6037" else 110) if ctx.quick else 3000
+        n = (160 if cfg != "BLS-T1-6037" else 110) if ctx.quick else 1500
         gg = ctx.rng("tinypairs:" + cfg)
         small = [(a, b) for a in range(0, 10) for b in range(0, 10)]
         rest = [(gg.randrange(S.r), gg.randrange(S.r)) for _ in range(n - 100 - 4)]
